@@ -18,6 +18,7 @@ class Runner:
         self.tab = tab
         self.U = Universe()
         self.records = []
+        self.requested_mutable = set()      # objects constructed with immutable=False (what the user asked for)
 
     # ------------------------------------------------------------------------------------------
     def live(self, visible_only=False):
@@ -75,8 +76,13 @@ class Runner:
             i = U.track(o)
             delta = self._delta(n0, None, False, False)
             d = U.prev[i]
+            _, entry, opts = world.parse_kind(st[1])
+            if opts.get("immutable") is False:
+                self.requested_mutable.add(i)
             return {"kind": "new", "cls": qual(o), "idx": i, "attrs": [[a, d[a][0], d[a][2]] for a in sorted(d)],
-                    "delta": delta, "changes": [], "exc": None}
+                    "delta": delta, "changes": [], "exc": None, "entry": entry or "_builder", "requested": opts,
+                    "observed": {k: repr(vars(o).get(k, "<missing>")) for k in opts}, "factory": st[1],
+                    "pyclass": type(o).__name__}
         recv, mname, aspecs, kspecs = st[1], st[2], st[3], st[4]
         aspecs2, kspecs2 = (st[5], st[6]) if len(st) > 5 else ([], {})
         if not (0 <= recv < len(U.objs)) or U.objs[recv] is None:
@@ -140,7 +146,8 @@ class Runner:
             elif hasattr(v, "get_sql"):
                 inline.append(v)
         copies = bool(m["copies"] and getattr(ro, "immutable", True))
-        mutable_recv = bool(m["copies"] and not getattr(ro, "immutable", True))
+        # for the oracle: the receiver was constructed with immutable=False (whether or not the option reached it)
+        mutable_recv = bool(m["copies"] and (recv in self.requested_mutable or not getattr(ro, "immutable", True)))
         before = self.snapshot(inline)
         exc, res = None, None
         try:
